@@ -337,6 +337,10 @@ func (n *lazyNode) isNull() bool {
 		return true
 	}
 
+	if n.which != eRaw {
+		return n.which == eAry && n.ary == nil
+	}
+
 	if n.raw == nil {
 		return true
 	}
@@ -345,6 +349,10 @@ func (n *lazyNode) isNull() bool {
 }
 
 func (n *lazyNode) equal(o *lazyNode) bool {
+	if n.isNull() || o.isNull() {
+		return n.isNull() && o.isNull()
+	}
+
 	if n.which == eRaw {
 		if !n.tryDoc() && !n.tryAry() {
 			if o.which != eRaw {
@@ -395,14 +403,6 @@ func (n *lazyNode) equal(o *lazyNode) bool {
 
 			if !ok {
 				return false
-			}
-
-			if (v == nil) != (ov == nil) {
-				return false
-			}
-
-			if v == nil && ov == nil {
-				continue
 			}
 
 			if !v.equal(ov) {
@@ -1107,12 +1107,10 @@ func (p Patch) test(doc *container, op Operation, options *ApplyOptions) error {
 
 	ov := op.value()
 
-	if val == nil {
-		if ov.isNull() {
+	if val.isNull() || ov.isNull() {
+		if val.isNull() && ov.isNull() {
 			return nil
 		}
-		return fmt.Errorf("testing value %s failed: %w", path, ErrTestFailed)
-	} else if ov.isNull() {
 		return fmt.Errorf("testing value %s failed: %w", path, ErrTestFailed)
 	}
 
